@@ -11,7 +11,10 @@ int main(int argc, char** argv) {
     for (long c = M.from; c < M.from + M.count; c++) {
         Rng r(M.seed, c, 401);
         Spec s; s.kind = K_FP;
-        s.n = (uint32_t)r.range(64, M.thorough() ? 256 : 160);
+        // consecutive cases come in pairs on the same mesh size with different extents (one process works through a block of cases:
+        // whatever a phase space keeps per mesh size must not survive into the next one)
+        { Rng rn(M.seed, c / 2, 402); s.n = (uint32_t)rn.range(64, M.thorough() ? 256 : 160); }
+        if (c % 2 == 1) { static const double ext[] = {14, 16, 20, 24}; s.pqsize = ext[(c / 2) % 4]; }
         s.nb = 1;
         // one case in sixteen on a mesh of 300-2100 cells
         if ((c / 8) % 16 == 5) { static const uint32_t big_n[] = {300, 520, 1030, 2100}; s.n = big_n[(c / 128) % 4]; M.ev("cases_on_meshes_beyond_256_cells"); }
@@ -39,6 +42,16 @@ int main(int argc, char** argv) {
         double v0 = var_of(din, m0);
         b.map->apply();
         double v1 = var_of(b.out->getData(), m1);
+        // the phase space's own report of the same quantity (Simpson projections, its own weights and axis) agrees with the plain sums
+        {
+            b.out->updateXProjection(); b.out->updateYProjection(); b.out->integrate(); b.out->average(0); b.out->average(1); b.out->variance(0); b.out->variance(1);
+            const double es = b.out->getEnergySpread()[0];
+            M.ev("own_energy_spreads_compared");
+            if (!M.within("own_energy_spread_rel_dev", std::fabs(es / std::sqrt(v1) - 1), 2e-3)) {
+                vh::J dj; dj.s("spec", s.descr()).n("reported_energy_spread", es).n("energy_spread_of_the_data", std::sqrt(v1)).n("extent", s.pqsize);
+                M.violation("C04:fp_step:reported_spread", "the energy spread the phase space reports is not the spread of its data", dj.str());
+            }
+        }
         double damp = (s.fptype == 1 || s.fptype == 3) ? 1 : 0, diff = (s.fptype == 2 || s.fptype == 3) ? 1 : 0;
         // second moment about zero: d<p^2> = e1*(2*diff - 2*damp*<p^2>); mean: d<p> = -damp*e1*<p>
         double p2_0 = v0 + m0 * m0, p2_1 = v1 + m1 * m1;
